@@ -482,6 +482,7 @@ func (p *ServiceProcessor) ProcessClientStreamRequest(req *http.Request, path st
 	// endStream tells the service routines to stop; the stream ends (outChan
 	// is closed) as soon as the last forwarding routine is gone.
 	endStream := func() {
+		verifC15Point("end-stream", nil)
 		stopAllOnce.Do(func() { close(stopAll) })
 		outLock.Lock()
 		if forwarders == 0 && !outClosed {
@@ -495,6 +496,7 @@ func (p *ServiceProcessor) ProcessClientStreamRequest(req *http.Request, path st
 		ended := false
 		forwarded := make(map[uintptr]bool)
 		for buf := range clientInputs {
+			verifC15Point("adapter-receive", buf)
 			if ended {
 				// The stream is ending after an error: drain the channel so
 				// that its writer never blocks.
@@ -576,6 +578,7 @@ func (p *ServiceProcessor) ProcessClientStreamRequest(req *http.Request, path st
 				// Since this goroutine is created each time the client sends a
 				// request, the outChan is closed by the last one that ends.
 				defer func() {
+					verifC15Point("forwarder-exit", nil)
 					outLock.Lock()
 					forwarders--
 					if forwarders == 0 && !outClosed {
@@ -599,6 +602,7 @@ func (p *ServiceProcessor) ProcessClientStreamRequest(req *http.Request, path st
 							log.Error(err)
 							return
 						}
+						verifC15Point("forwarder-send", buf)
 						select {
 						case outChan <- buf:
 						case <-stopAll:
